@@ -96,6 +96,10 @@ func (fx *fnExec) execCall(dst *ssa.Call, c *ssa.CallCommon, where string) {
 	}
 	// hooks may still observe the call
 	if fx.v.isNoEffect(name) {
+		if name == "(*sync.WaitGroup).Wait" && fx.asyncMods != nil {
+			// join: what the spawned functions wrote into shared maps is visible now
+			fx.havoc(fx.asyncMods, "join")
+		}
 		if resT != nil {
 			r := fx.freshSV(resT, "r_"+shortName(name))
 			fx.wfValue(r)
